@@ -564,6 +564,10 @@ for i, tier, cap in ((I(8, 1), 'quick', 900), (I(8, 2), 'thorough', 7200), (I(16
                   tier=tier, cap=cap, inst=i.label, core=(i.bits == 8), mem_gb=24,
                   funcs=f"{nm} {'sample_single_inclusive' if single else 'Uniform::sample'}: equal number of accepted RNG words per value",
                   bound='all bounds, all pairs of offsets, all word positions inside a block (relational 2-run query)'))
+for i in (I(8, 3), I(16, 2)):
+    for sg, T in (('u', i.U), ('i', i.I)):
+        add(H('C20', f"c20_range_alpha_{sg}_{i.tag}", 'c20_range', f"{i.bytes + 4}, {T}, {i.digit}, {i.n}, any_alpha", tier='thorough', cap=10800, inst=i.label, core=False, mem_gb=16,
+              funcs='range membership on a type wider than 16 bits (the approximate-zone branch of sample_single_inclusive)', bound='bounds with digits over the boundary alphabet, all RNG streams with at most 2 rejections'))
 for i, tier in ((I(8, 1), 'quick'), (I(8, 3), 'quick'), (I(64, 2), 'quick'), (I(16, 2), 'thorough'), (I(32, 3), 'thorough'), (I(64, 1), 'thorough'), (I(64, 3), 'thorough')):
     add(H('C20', f"c20_fill_{i.tag}", 'c20_fill', f"{3 * i.bytes + 3}, {i.U}, {i.I}, {i.digit}, {i.n}", tier=tier, cap=1800, inst=i.label, mem_gb=6,
           funcs='Standard (rng.gen) for BUint/BInt, Fill / try_fill_slice for slices of length 0..=3', bound='all RNG streams, symbolic byte index'))
